@@ -39,8 +39,32 @@ type ridKey struct{}
 type gateDS struct {
 	datastore.Batching
 	mu    sync.Mutex
-	rgate map[int]chan struct{} // reader id -> armed gate (first index Get of that reader)
-	wgate chan struct{}         // armed gate for the flush goroutine's next index Get
+	rgate map[int]map[int]chan struct{} // reader id -> number of its index Get (1, 2) -> armed gate
+	rgets map[int]int                   // reader id -> index Gets so far
+	at    map[int]int                   // reader id -> the gate it is held at (0 = none)
+	wgate chan struct{}                 // armed gate for the flush goroutine's next index Get
+}
+
+func newGateDS() *gateDS {
+	return &gateDS{Batching: dssync.MutexWrap(datastore.NewMapDatastore()),
+		rgate: map[int]map[int]chan struct{}{}, rgets: map[int]int{}, at: map[int]int{}}
+}
+
+func (g *gateDS) arm(rid, k int) chan struct{} {
+	ch := make(chan struct{})
+	g.mu.Lock()
+	if g.rgate[rid] == nil {
+		g.rgate[rid] = map[int]chan struct{}{}
+	}
+	g.rgate[rid][k] = ch
+	g.mu.Unlock()
+	return ch
+}
+
+func (g *gateDS) heldAt(rid int) int {
+	g.mu.Lock()
+	defer g.mu.Unlock()
+	return g.at[rid]
 }
 
 func isHeightKey(k datastore.Key) bool {
@@ -59,10 +83,15 @@ func isHeightKey(k datastore.Key) bool {
 func (g *gateDS) Get(ctx context.Context, k datastore.Key) ([]byte, error) {
 	if isHeightKey(k) {
 		var ch chan struct{}
+		rid, isReader := ctx.Value(ridKey{}).(int)
 		g.mu.Lock()
-		if rid, ok := ctx.Value(ridKey{}).(int); ok {
-			ch = g.rgate[rid]
-			delete(g.rgate, rid)
+		if isReader {
+			g.rgets[rid]++
+			n := g.rgets[rid]
+			if ch = g.rgate[rid][n]; ch != nil {
+				delete(g.rgate[rid], n)
+				g.at[rid] = n
+			}
 		} else if g.wgate != nil {
 			ch = g.wgate
 			g.wgate = nil
@@ -70,6 +99,11 @@ func (g *gateDS) Get(ctx context.Context, k datastore.Key) ([]byte, error) {
 		g.mu.Unlock()
 		if ch != nil {
 			<-ch
+			if isReader {
+				g.mu.Lock()
+				g.at[rid] = 0
+				g.mu.Unlock()
+			}
 		}
 	}
 	return g.Batching.Get(ctx, k)
@@ -77,9 +111,9 @@ func (g *gateDS) Get(ctx context.Context, k datastore.Key) ([]byte, error) {
 
 // macro operations of a scenario
 const (
-	SG   = "SG"   // start reader I with its first index read held at a gate
-	SU   = "SU"   // start reader I, not held
-	REL  = "REL"  // release reader I's gate
+	SG   = "SG"   // start reader I with its first index read held at a gate (G2: also its second one)
+	SU   = "SU"   // start reader I, first index read not held (G2: its second one is: the re-lookup after registering)
+	REL  = "REL"  // release the gate reader I is held at
 	B    = "B"    // Append(Hs), flush runs to completion
 	BG   = "BG"   // Append(Hs), flush held in advanceHead's first index read (after Notify)
 	WREL = "WREL" // release the flush goroutine
@@ -89,6 +123,7 @@ const (
 type op struct {
 	K  string   `json:"k"`
 	I  int      `json:"i,omitempty"`
+	G2 bool     `json:"g2,omitempty"`
 	Hs []uint64 `json:"hs,omitempty"`
 }
 
@@ -102,7 +137,6 @@ type scen struct {
 type result struct {
 	term    string
 	descr   map[string]any
-	racy    bool
 	blocked int
 	kinds   []string
 	late    bool
@@ -172,7 +206,7 @@ func classify(w *world, n uint64, h *vhdr.Header, err error) string {
 // runScenario executes the scenario on the real store and renders the case.
 func runScenario(t *testing.T, w *world, sc scen) (res result) {
 	synctest.Test(t, func(t *testing.T) {
-		gds := &gateDS{Batching: dssync.MutexWrap(datastore.NewMapDatastore()), rgate: map[int]chan struct{}{}}
+		gds := newGateDS()
 		st, err := store.NewStore[*vhdr.Header](gds, store.WithWriteBatchSize(sc.Batch))
 		if err != nil {
 			t.Fatal(err)
@@ -184,12 +218,13 @@ func runScenario(t *testing.T, w *world, sc scen) (res result) {
 		}
 		nr := len(sc.Ns)
 		type rd struct {
-			started, gated bool
-			gate           chan struct{}
-			done           atomic.Bool
-			out            string
-			cancel         context.CancelFunc
-			ctx            context.Context
+			started bool
+			gated   int // 0: not held; 1: held in its first index read; 2: in its second one
+			gates   [3]chan struct{}
+			done    atomic.Bool
+			out     string
+			cancel  context.CancelFunc
+			ctx     context.Context
 		}
 		rs := make([]*rd, nr)
 		for i := range rs {
@@ -200,24 +235,63 @@ func runScenario(t *testing.T, w *world, sc scen) (res result) {
 		}
 		var ev []string
 		var wgate chan struct{}
+		// the select's choice when the sub is closed AND the context has ended is Go's (random): it is
+		// read off the result -- RdCtx differs from Rd only in that one situation
+		rdn := func(i, k int) {
+			e := "Rd"
+			if rs[i].done.Load() && rs[i].out == "ODone RCtx" {
+				e = "RdCtx"
+			}
+			ev = append(ev, rep(fmt.Sprintf("%s %d", e, i), k)...)
+		}
 		running := func(except int) {
 			for j, r := range rs {
-				if j != except && r.started && !r.gated {
-					ev = append(ev, rep(fmt.Sprintf("Rd %d", j), 2)...)
+				if j != except && r.started && r.gated == 0 {
+					rdn(j, 2)
 				}
 			}
 		}
-		start := func(i int, gated bool) {
+		// after reader i was (re)started with `before` own steps already emitted: where is it now?
+		settle := func(i int, fromGate int) {
+			r := rs[i]
+			switch {
+			case r.done.Load() || gds.heldAt(i) == 0:
+				// ran to its return or into the select
+				r.gated = 0
+				switch fromGate {
+				case 0:
+					rdn(i, 7) // lookup, check, lock+register, re-lookup, (deregister | select), lookup, done
+				case 1:
+					rdn(i, 6)
+				case 2:
+					rdn(i, 4)
+				}
+			case gds.heldAt(i) == 1:
+				r.gated = 1
+				rdn(i, 1) // the first lookup has read head, tail and pending
+			case gds.heldAt(i) == 2:
+				// held in its second index read: the re-lookup after registering, or (Height() >= n
+				// meanwhile) the final lookup; either way that lookup has read head, tail and pending
+				r.gated = 2
+				switch fromGate {
+				case 0:
+					rdn(i, 4)
+				case 1:
+					rdn(i, 3)
+				}
+			}
+		}
+		start := func(i int, g1, g2 bool) {
 			r := rs[i]
 			if r.started {
 				return
 			}
 			r.started = true
-			if gated {
-				r.gate = make(chan struct{})
-				gds.mu.Lock()
-				gds.rgate[i] = r.gate
-				gds.mu.Unlock()
+			if g1 {
+				r.gates[1] = gds.arm(i, 1)
+			}
+			if g2 {
+				r.gates[2] = gds.arm(i, 2)
 			}
 			n := sc.Ns[i]
 			go func() {
@@ -233,22 +307,17 @@ func runScenario(t *testing.T, w *world, sc scen) (res result) {
 				out = classify(w, n, h, err)
 			}()
 			synctest.Wait()
-			if gated {
-				ev = append(ev, fmt.Sprintf("Rd %d", i))
-				r.gated = !r.done.Load()
-			} else {
-				ev = append(ev, rep(fmt.Sprintf("Rd %d", i), 4)...)
-			}
+			settle(i, 0)
 		}
 		release := func(i int) {
 			r := rs[i]
-			if !r.started || !r.gated {
+			if !r.started || r.gated == 0 {
 				return
 			}
-			r.gated = false
-			close(r.gate)
+			from := r.gated
+			close(r.gates[from])
 			synctest.Wait()
-			ev = append(ev, rep(fmt.Sprintf("Rd %d", i), 4)...)
+			settle(i, from)
 			running(i)
 		}
 		wrelease := func() {
@@ -268,18 +337,6 @@ func runScenario(t *testing.T, w *world, sc scen) (res result) {
 			}
 			_, herr := st.Head(bg)
 			first := herr != nil
-			if first {
-				// the reader woken by Init's notify would race with pending.Append of the same batch
-				for j, r := range rs {
-					if r.started && !r.gated && !r.done.Load() && sc.Ns[j] < hs[0] {
-						for _, h := range hs {
-							if h == sc.Ns[j] {
-								res.racy = true
-							}
-						}
-					}
-				}
-			}
 			hdrs := make([]*vhdr.Header, len(hs))
 			ids := make([]string, len(hs))
 			for k, h := range hs {
@@ -298,22 +355,23 @@ func runScenario(t *testing.T, w *world, sc scen) (res result) {
 			synctest.Wait()
 			ev = append(ev, "Enq "+emit.List(ids))
 			if gated {
-				k := 3
+				// receive, pending.Append, ensureInit (head CAS [, Init store, Init notify, tail CAS]), Notify
+				k := 4
 				if first {
-					k = 5
+					k = 7
 				}
 				ev = append(ev, rep("Wr", k)...)
 			} else {
-				ev = append(ev, rep("Wr", 10)...)
+				ev = append(ev, rep("Wr", 12)...)
 			}
 			running(-1)
 		}
 		for _, o := range sc.Ops {
 			switch o.K {
 			case SG:
-				start(o.I, true)
+				start(o.I, true, o.G2)
 			case SU:
-				start(o.I, false)
+				start(o.I, false, o.G2)
 			case REL:
 				release(o.I)
 			case B:
@@ -327,8 +385,8 @@ func runScenario(t *testing.T, w *world, sc scen) (res result) {
 				r.cancel()
 				synctest.Wait()
 				ev = append(ev, fmt.Sprintf("Cancel %d", o.I))
-				if r.started && !r.gated {
-					ev = append(ev, fmt.Sprintf("Rd %d", o.I))
+				if r.started && r.gated == 0 {
+					rdn(o.I, 1)
 				}
 				running(o.I)
 			}
@@ -336,6 +394,7 @@ func runScenario(t *testing.T, w *world, sc scen) (res result) {
 		// let every flush finish and every held reader go
 		wrelease()
 		for i := range rs {
+			release(i)
 			release(i)
 		}
 		synctest.Wait()
@@ -398,12 +457,21 @@ func insertAt(ops []op, p int, o op) []op {
 	return append(out, ops[p:]...)
 }
 
-// witness of known finding F5: Head = 1, reader for 3 held after its failed
-// first lookup, header 3 (not adjacent to Head) appended and announced,
-// reader released: it registers after Notify(3) and parks until its context ends.
-func witness() scen {
-	return scen{Name: "F5-witness", Ns: []uint64{3}, Batch: 64,
-		Ops: []op{{K: B, Hs: []uint64{1}}, {K: SG, I: 0}, {K: B, Hs: []uint64{3}}, {K: REL, I: 0}}}
+// corpus: the schedule that lost the wake-up before 33d75f6 (former finding F5): Head = 1, reader for
+// 3 held after its failed first lookup, header 3 (not adjacent to Head) appended and announced,
+// reader released: it registers after Notify(3) -- and must now find 3 in its re-lookup.
+func corpus() []scen {
+	return []scen{
+		{Name: "corpus/F5-lost-wakeup", Ns: []uint64{3}, Batch: 64,
+			Ops: []op{{K: B, Hs: []uint64{1}}, {K: SG, I: 0}, {K: B, Hs: []uint64{3}}, {K: REL, I: 0}}},
+		{Name: "corpus/F5-lost-wakeup-2-readers", Ns: []uint64{3, 3}, Batch: 64,
+			Ops: []op{{K: B, Hs: []uint64{1}}, {K: SG, I: 0}, {K: SU, I: 1}, {K: B, Hs: []uint64{3}}, {K: REL, I: 0}}},
+		{Name: "corpus/F5-fill-later", Ns: []uint64{4}, Batch: 64,
+			Ops: []op{{K: B, Hs: []uint64{1}}, {K: SG, I: 0}, {K: B, Hs: []uint64{4}}, {K: REL, I: 0}, {K: B, Hs: []uint64{2, 3}}}},
+		// held in the re-lookup (registered, pending read done, not yet in the select) while the header arrives
+		{Name: "corpus/held-in-relookup", Ns: []uint64{3}, Batch: 64,
+			Ops: []op{{K: B, Hs: []uint64{1}}, {K: SU, I: 0, G2: true}, {K: B, Hs: []uint64{3}}, {K: REL, I: 0}}},
+	}
 }
 
 func TestC12(t *testing.T) {
@@ -419,14 +487,10 @@ func TestC12(t *testing.T) {
 	w := newWorld()
 	add := func(sc scen) {
 		r := runScenario(t, w, sc)
-		if r.racy {
-			out.Count("skipped", "racy-init-notify")
-			return
-		}
 		key := fmt.Sprintf("%v/%v/%d", sc.Ns, sc.Ops, sc.Batch)
 		nontriv := false
 		for _, o := range sc.Ops {
-			if o.K == SG || o.K == BG || o.K == CAN {
+			if o.K == SG || o.K == BG || o.K == CAN || o.G2 {
 				nontriv = true
 			}
 		}
@@ -441,7 +505,10 @@ func TestC12(t *testing.T) {
 			out.Count("macro_op", o.K)
 		}
 	}
-	add(witness())
+	for _, sc := range corpus() {
+		add(sc)
+		out.Count("corpus", sc.Name)
+	}
 	raceOnly := os.Getenv("VERIF_C12_RACE_ONLY") != "" // experiments: only the witness and the race rounds
 
 	// --- sweep: one reader x one flush
@@ -465,6 +532,9 @@ func TestC12(t *testing.T) {
 			base = 3
 		}
 		for _, sh := range shapes {
+			if !thorough && prefix != nil && (sh.name == "contig2" || sh.name == "unordered") {
+				continue // quick: the full shape list only on the fresh store
+			}
 			hs := sh.hs(base)
 			extra := uint64(3) // below the first header, never stored
 			if prefix != nil {
@@ -474,13 +544,17 @@ func TestC12(t *testing.T) {
 				if n == 0 && sh.name != "contig1" {
 					continue
 				}
-				for _, rg := range []bool{true, false} {
+				for rmode := 0; rmode < 4; rmode++ {
 					for _, wg := range []bool{true, false} {
 						var ra, wa []op
-						if rg {
-							ra = []op{{K: SG, I: 0}, {K: REL, I: 0}}
+						g2 := rmode&2 != 0
+						if rmode&1 != 0 {
+							ra = []op{{K: SG, I: 0, G2: g2}, {K: REL, I: 0}}
 						} else {
-							ra = []op{{K: SU, I: 0}}
+							ra = []op{{K: SU, I: 0, G2: g2}}
+						}
+						if g2 {
+							ra = append(ra, op{K: REL, I: 0})
 						}
 						if wg {
 							wa = []op{{K: BG, Hs: hs}, {K: WREL}}
@@ -493,7 +567,7 @@ func TestC12(t *testing.T) {
 								pre = []op{{K: B, Hs: prefix}}
 							}
 							ops := append(pre, m...)
-							name := fmt.Sprintf("sweep/p%d/%s/n%d/rg%v/wg%v/m%d", len(prefix), sh.name, n, rg, wg, mi)
+							name := fmt.Sprintf("sweep/p%d/%s/n%d/r%d/wg%v/m%d", len(prefix), sh.name, n, rmode, wg, mi)
 							add(scen{Name: name, Ns: []uint64{n}, Ops: ops, Batch: 64})
 							// cancellation at every / one position
 							var ps []int
@@ -501,14 +575,14 @@ func TestC12(t *testing.T) {
 								for p := len(pre); p <= len(ops); p++ {
 									ps = append(ps, p)
 								}
-							} else {
+							} else if mi%3 == 0 {
 								ps = []int{len(pre) + rng.Intn(len(m)+1)}
 							}
 							for _, p := range ps {
 								add(scen{Name: fmt.Sprintf("%s/c%d", name, p), Ns: []uint64{n}, Ops: insertAt(ops, p, op{K: CAN, I: 0}), Batch: 64})
 							}
-							// a later batch that fills the gap (SetHeight reaches n after a lost Notify)
-							if sh.name == "gapped" || sh.name == "hole" {
+							// a later batch that fills the gap (SetHeight reaches n as well)
+							if (sh.name == "gapped" || sh.name == "hole") && (thorough || mi%2 == 1) {
 								fill := []uint64{base, base + 1}
 								add(scen{Name: name + "/fill", Ns: []uint64{n}, Ops: append(append([]op(nil), ops...), op{K: B, Hs: fill}), Batch: 64})
 							}
@@ -636,10 +710,14 @@ func randomScenario(rng *emit.Rand, k int) scen {
 	seqs = append(seqs, wseq)
 	for i := 0; i < nr; i++ {
 		var s []op
+		g2 := gates && rng.Chance(35)
 		if gates && rng.Chance(50) {
-			s = []op{{K: SG, I: i}, {K: REL, I: i}}
+			s = []op{{K: SG, I: i, G2: g2}, {K: REL, I: i}}
 		} else {
-			s = []op{{K: SU, I: i}}
+			s = []op{{K: SU, I: i, G2: g2}}
+		}
+		if g2 {
+			s = append(s, op{K: REL, I: i})
 		}
 		if rng.Chance(35) {
 			p := rng.Intn(len(s) + 1)
@@ -688,7 +766,7 @@ func raceRound(t *testing.T, w *world, rng *emit.Rand, k int) []result {
 	const big = 3000
 	bw := bigWorld(big)
 	synctest.Test(t, func(t *testing.T) {
-		gds := &gateDS{Batching: dssync.MutexWrap(datastore.NewMapDatastore()), rgate: map[int]chan struct{}{}}
+		gds := newGateDS()
 		st, err := store.NewStore[*vhdr.Header](gds, store.WithWriteBatchSize(1<<20))
 		if err != nil {
 			t.Fatal(err)
@@ -715,7 +793,7 @@ func raceRound(t *testing.T, w *world, rng *emit.Rand, k int) []result {
 		}
 		synctest.Wait()
 		ev = append(ev, "Enq "+emit.List([]string{bw.hid(1)}))
-		ev = append(ev, rep("Wr", 10)...)
+		ev = append(ev, rep("Wr", 12)...)
 		batch := bw.hs[2 : top+1]
 		ids := make([]string, len(batch))
 		for i, h := range batch {
@@ -730,10 +808,7 @@ func raceRound(t *testing.T, w *world, rng *emit.Rand, k int) []result {
 		startReader := func(i int, gated bool) {
 			ctx := context.WithValue(bg, ridKey{}, i)
 			if gated {
-				gates[i] = make(chan struct{})
-				gds.mu.Lock()
-				gds.rgate[i] = gates[i]
-				gds.mu.Unlock()
+				gates[i] = gds.arm(i, 1)
 			}
 			n := ns[i]
 			go func() {
@@ -771,7 +846,7 @@ func raceRound(t *testing.T, w *world, rng *emit.Rand, k int) []result {
 				ev = append(ev, fmt.Sprintf("Rd %d", i))
 			}
 			ev = append(ev, fmt.Sprintf("Enq (hid_range 2 %d)", top-1))
-			ev = append(ev, rep("Wr", 3)...)
+			ev = append(ev, rep("Wr", 4)...)
 			// the flush is released somewhere in the middle of the readers, so that its CAS
 			// lands while readers contend for heightSubsLk between their two Height() checks
 			at := rng.Intn(nr)
@@ -787,7 +862,7 @@ func raceRound(t *testing.T, w *world, rng *emit.Rand, k int) []result {
 			synctest.Wait()
 			ev = append(ev, rep("Wr", 6)...)
 			for i := range ns {
-				ev = append(ev, rep(fmt.Sprintf("Rd %d", i), 4)...)
+				ev = append(ev, rep(fmt.Sprintf("Rd %d", i), 7)...)
 			}
 		case 1:
 			// readers parked on the first heights of a big batch: Notify's loop over the whole batch
@@ -798,7 +873,7 @@ func raceRound(t *testing.T, w *world, rng *emit.Rand, k int) []result {
 			}
 			synctest.Wait()
 			for i := range ns {
-				ev = append(ev, rep(fmt.Sprintf("Rd %d", i), 4)...)
+				ev = append(ev, rep(fmt.Sprintf("Rd %d", i), 7)...)
 			}
 			// a gap: heights 3..big, head stays 1, so only Notify wakes the readers of 3 and 4
 			gb := bw.hs[3 : big+1]
@@ -807,7 +882,7 @@ func raceRound(t *testing.T, w *world, rng *emit.Rand, k int) []result {
 			}
 			synctest.Wait()
 			ev = append(ev, fmt.Sprintf("Enq (hid_range 3 %d)", big-2))
-			ev = append(ev, rep("Wr", 10)...)
+			ev = append(ev, rep("Wr", 12)...)
 			for i := range ns {
 				ev = append(ev, rep(fmt.Sprintf("Rd %d", i), 2)...)
 			}
@@ -954,7 +1029,7 @@ func raceLock(t *testing.T, rng *emit.Rand, k int) []result {
 		}
 		synctest.Wait()
 		ev = append(ev, "Enq [(1, 1)]")
-		ev = append(ev, rep("Wr", 10)...)
+		ev = append(ev, rep("Wr", 12)...)
 		outs := make([]string, nr)
 		done := make([]atomic.Bool, nr)
 		gds.on.Store(true)
@@ -1019,9 +1094,9 @@ func raceLock(t *testing.T, rng *emit.Rand, k int) []result {
 		}
 		synctest.Wait()
 		ev = append(ev, fmt.Sprintf("Enq ((2, 2) :: hid_range %d %d)", far, farLen))
-		ev = append(ev, rep("Wr", 10)...)
+		ev = append(ev, rep("Wr", 12)...)
 		for i := 0; i < nr; i++ {
-			ev = append(ev, rep(fmt.Sprintf("Rd %d", i), 4)...)
+			ev = append(ev, rep(fmt.Sprintf("Rd %d", i), 7)...)
 		}
 		obs := make([]string, nr)
 		var r result
@@ -1086,7 +1161,7 @@ func raceNotify(t *testing.T, rng *emit.Rand, k int) []result {
 		}
 		synctest.Wait()
 		ev = append(ev, "Enq [(1, 1)]")
-		ev = append(ev, rep("Wr", 10)...)
+		ev = append(ev, rep("Wr", 12)...)
 		fb := make([]*rhdr, 0, farLen)
 		for i := 0; i < farLen; i++ {
 			fb = append(fb, mk(far+uint64(i)))
@@ -1121,14 +1196,14 @@ func raceNotify(t *testing.T, rng *emit.Rand, k int) []result {
 		}
 		synctest.Wait()
 		for i := 0; i < nr; i++ {
-			ev = append(ev, rep(fmt.Sprintf("Rd %d", i), 4)...)
+			ev = append(ev, rep(fmt.Sprintf("Rd %d", i), 7)...)
 		}
 		if err := st.Append(bg, fb...); err != nil {
 			t.Fatal(err)
 		}
 		synctest.Wait()
 		ev = append(ev, fmt.Sprintf("Enq (hid_range %d %d)", far, farLen))
-		ev = append(ev, rep("Wr", 10)...)
+		ev = append(ev, rep("Wr", 12)...)
 		for i := 0; i < nr; i++ {
 			ev = append(ev, rep(fmt.Sprintf("Rd %d", i), 2)...)
 		}
